@@ -883,3 +883,26 @@ def rule_resume_offset_exact(cx):
                  "framed against block boundaries the reader does not share -- the next open reports corruption inside its own cleanly written segment (or repair drops the "
                  "session's commits)" % ", ".join(sorted(other_ops) + ["constant %s" % (k.get("v") or k.get("cdef")) for k in other_consts]))
     cx.floor("resumed-writer sites", n, 1)
+
+
+def rule_replay_never_gives_up_on_size(cx):
+    """Replay rebuilds one memtable per WAL segment and, when the configured arena is too small for it, starts the segment
+    again with a doubled arena.  A record that is too large for an EMPTY memtable of the configured size (a transaction
+    larger than `max_memtable_size`: its commit fails in apply, but its record is durable by then) must take the same
+    road -- an error exit on the `ArenaFull` arm turns one failed commit into a directory that can never be opened
+    again."""
+    f = cx.f
+    b = f.body("wal::recovery::replay_wal")
+    adds = [c for c in b.calls if c.bb in b.live and c.primary.split("::")[-1] == "add" and "MemTable" in c.primary]
+    cx.floor("memtable applies in replay_wal", len(adds), 1)
+    for c in adds:
+        arms = _error_arms(b, c)
+        if not arms or "ArenaFull" not in arms:
+            raise AnchorMissing("replay_wal: the ArenaFull arm of MemTable::add was not recognised")
+        # (the retry starts where the segment's memtable is created afresh: errors of the NEXT attempt are not this arm's)
+        retry = {x.bb for x in b.calls if x.bb in b.live and x.primary.split("::")[-1] == "new" and "MemTable" in x.primary}
+        r = feasible_reach(b, arms["ArenaFull"], avoid={c.bb} | retry)
+        bad = [x for x, k in exits(b) if k == "err" and x in r]
+        cx.check(not bad, "replay_wal: an ArenaFull while applying a record always leads to a retry with a larger arena", "replay-gives-up-on-size", c.where(),
+                 "replay_wal returns an error from the ArenaFull arm (a record larger than an empty memtable of the configured size): the record of a transaction that "
+                 "failed in apply is durable, so every later open fails with `Batch too large` -- the store cannot reopen what it wrote")
